@@ -133,6 +133,19 @@ CLAIMED = {
              "upload response (the client raises otherwise; not covered).",
         technique="Coq proof of client||server composition by induction over segments + byte-exact differential correspondence",
         ref="7/C16"),
+    "C24": dict(
+        text="Theorem C24_cleanup: for EVERY prefix of bus-level events the run coroutine can have produced when it is cancelled (any number of cycles, any subset "
+             "of the OPERATIONAL requests already sent, slow and fast groups), the clean-up asks every terminal that was asked to go OPERATIONAL back to "
+             "SAFE-OPERATIONAL and unregisters a registered program (induction over the event list of the control automaton). Tie: the REAL SyncGroup.run / "
+             "FastSyncGroup.run (real map_fmmu, to_operational, register_sync_group, sendloop) are cancelled after every event-loop iteration of start-up and "
+             "the first cycles on the simulated bus; the events submitted before the cancellation must be accepted by the automaton and the events after it "
+             "must equal the model's clean-up; the oracle additionally checks outcome = cancelled, FMMU tables freed, registry empty; wait_for_process is "
+             "cancelled with a stand-in child process.",
+        note=TB + "Partial: asyncio's cancellation semantics are assumed; the abstraction of the coroutine to its bus-level events is validated only by the "
+             "correspondence; process-based groups are covered only through wait_for_process (no real ParallelEtherCat/subprocess_run); a task cancelled "
+             "before its coroutine first runs executes no clean-up at all (outside the quantifier: no await point reached).",
+        technique="Coq proof over all admissible event prefixes + cancellation injected at every loop iteration of the real coroutines",
+        ref="7/C24"),
 }
 
 REASONS_NOT_YET = "no check built yet in this round (planned, see DESIGN.md section 7); nothing is claimed for it"
